@@ -261,8 +261,10 @@ macro_rules! k8v {
 k8v!(k8v_varempty_0, [], 6);
 //@ k8v_varempty_1 props=C03,C01 tier=quick expect=pass fns=eval_guard_access_clause,unary_operation :: clause level, `[not] %v [!]empty` on one resolved Int: not empty; negations flip
 k8v!(k8v_varempty_1, [V_INT], 6);
-//@ k8v_varempty_2 props=C03,C01 tier=thorough expect=pass fns=eval_guard_access_clause,unary_operation :: clause level, `[not] %v [!]empty` on (Null, unresolved, "x"): null and unresolved entries count as empty; some/all fold
-k8v!(k8v_varempty_2, [V_NULL, V_UNRESOLVED, V_STR_X], 8);
+//@ k8v_varempty_2a props=C03,C01 tier=thorough expect=pass fns=eval_guard_access_clause,unary_operation :: clause level, `[not] %v [!]empty` on (Null, "x"): a null entry counts as empty, a string does not; some/all fold over two entries
+k8v!(k8v_varempty_2a, [V_NULL, V_STR_X], 7);
+//@ k8v_varempty_2b props=C03,C01 tier=thorough expect=pass fns=eval_guard_access_clause,unary_operation :: clause level, `[not] %v [!]empty` on (unresolved, "x"): an unresolved entry counts as empty; some/all fold over two entries
+k8v!(k8v_varempty_2b, [V_UNRESOLVED, V_STR_X], 7);
 
 //@ k8_twin props=C01,C02,C03 tier=quick expect=fail fns=eval_guard_access_clause :: vacuity twin of the clause-level family
 proof!(k8_twin, 6, {
